@@ -6,6 +6,13 @@
 #ifndef V_VEC_MODEL_H
 #define V_VEC_MODEL_H
 #define V_EXC_OUT_OF_RANGE 3
+/* element copy on reallocation: the weak tracked-offset memcpy (unbounded proofs) or, with -DV_VEC_LOOPCOPY, an element loop
+ * (concrete small scenarios under --unwind) */
+#ifdef V_VEC_LOOPCOPY
+#define V_VEC_COPY(T, d, s, n) do { for (size_t __k = 0; __k < (n); ++__k) (d)[__k] = (s)[__k]; } while (0)
+#else
+#define V_VEC_COPY(T, d, s, n) do { if (n) v_memcpy((d), (s), (n) * sizeof(T)); } while (0)
+#endif
 #define V_VEC_DECL(T, N) \
   struct N { T *data; size_t size; }; \
   static inline void N##_init(struct N *v) { v->data = NULL; v->size = 0; } \
@@ -18,7 +25,7 @@
     if (n == v->size) return; \
     T *nd = n ? (T *)v_alloc_ok(n * sizeof(T)) : NULL; \
     size_t keep = n < v->size ? n : v->size; \
-    if (keep) v_memcpy(nd, v->data, keep * sizeof(T)); \
+    V_VEC_COPY(T, nd, v->data, keep); \
     if (v->data != NULL) free(v->data); \
     v->data = nd; v->size = n; } \
   static inline void N##_reserve(struct N *v, size_t n) { (void)v; (void)n; } \
